@@ -920,6 +920,22 @@ func (e *CEnv) eval(x ast.Expr) (Value, types.Type) {
 			sv.F[idx] = v
 		}
 		return sv, tt.T
+	case *ast.MapType:
+		kv, _ := e.eval(n.Key)
+		vv, _ := e.eval(n.Value)
+		kt, ok1 := kv.(typeV)
+		vt, ok2 := vv.(typeV)
+		if !ok1 || !ok2 {
+			e.fail("map type needs two types")
+		}
+		return typeV{types.NewMap(kt.T, vt.T)}, nil
+	case *ast.ArrayType:
+		if n.Len == nil {
+			ev, _ := e.eval(n.Elt)
+			if et, ok := ev.(typeV); ok {
+				return typeV{types.NewSlice(et.T)}, nil
+			}
+		}
 	}
 	_ = p
 	e.fail("unsupported expression %T", x)
